@@ -179,6 +179,8 @@ def _plan_item(idx, ex):
         item["derive"] = [x for x in ex.opts["derive"].split(",") if x]
     if "mod" in ex.opts:
         item["mod_path"] = ex.opts["mod"].split("::")
+    if "as_trait" in ex.opts:
+        item["as_trait"] = ex.opts["as_trait"]
     if "subst" in ex.opts:
         item["type_subst"] = dict(p.split("=>") for p in ex.opts["subst"].split(";") if p)
     fns = []
